@@ -81,7 +81,7 @@ int ezc3d::ParametersNS::GroupNS::Group::read(ezc3d::c3d &file, int nbCharInName
         nextParamByteInFile = static_cast<int>(static_cast<size_t>(file.tellg()) + offsetNext - ezc3d::DATA_TYPE::WORD);
 
     // Byte 5+nbCharInName ==> Number of characters in group description
-    int nbCharInDesc(file.readInt(1*ezc3d::DATA_TYPE::BYTE));
+    size_t nbCharInDesc(file.readUint(1*ezc3d::DATA_TYPE::BYTE)); // unsigned, a description can have up to 255 characters
     // Byte 6+nbCharInName ==> Group description
     if (nbCharInDesc)
         _description = file.readString(static_cast<unsigned int>(nbCharInDesc));
